@@ -17,8 +17,10 @@ use std::collections::{BTreeSet, HashSet};
 pub enum Mode {
     Must,
     May,
-    /// May + the behaviours of *known findings* (used only to attribute a disagreement to a known finding)
-    MayKnown,
+    /// May + the behaviours of *known findings* selected by the flags (used only to attribute a
+    /// disagreement to a known finding): bit 0 = try_send Full behind a woken sender, bit 1 = a
+    /// successful acquire on an unfair semaphore blocks tasks that merely hold a pending acquisition
+    MayKnown(u8),
 }
 
 #[derive(Clone, Debug, PartialEq, Eq, Hash)]
@@ -136,6 +138,8 @@ struct TSt {
     cleanup: u8,
     /// handle moved out of the table by an in-flight Join (dropped first on cancellation)
     joining: Option<u8>,
+    /// (known-finding mode only) blocked by another task's acquire although not waiting
+    frozen: bool,
 }
 
 #[derive(Clone, Debug, PartialEq, Eq, Hash)]
@@ -209,6 +213,7 @@ impl<'a> Explorer<'a> {
                 acq_kept: false,
                 cleanup: 0,
                 joining: None,
+                frozen: false,
             })
             .collect();
         tasks[0].status = Status::Ready;
@@ -281,6 +286,7 @@ impl<'a> Explorer<'a> {
             for t in 0..s.tasks.len() {
                 if let Some((qs, qn, AcqState::Pending)) = s.tasks[t].acq {
                     if qs as usize == sem && qn <= avail {
+                        s.tasks[t].frozen = false;
                         Self::wake(s, t);
                     }
                 }
@@ -326,6 +332,24 @@ impl<'a> Explorer<'a> {
         s.tasks[t].acq_kept = false;
     }
 
+    /// known finding c18.reblock-if-unfair: after a successful acquire on an unfair semaphore every task
+    /// that owns a queued acquisition which no longer fits is marked blocked, whether or not it is waiting
+    fn freeze_after_acquire(&self, s: &mut St, sem: usize, me: usize) {
+        if !matches!(self.mode, Mode::MayKnown(f) if f & 2 != 0) || s.sems[sem].fair {
+            return;
+        }
+        let avail = s.sems[sem].avail;
+        for o in 0..s.tasks.len() {
+            if o != me {
+                if let Some((qs, qn, AcqState::Pending)) = s.tasks[o].acq {
+                    if qs as usize == sem && qn > avail && s.tasks[o].status != Status::Finished {
+                        s.tasks[o].frozen = true;
+                    }
+                }
+            }
+        }
+    }
+
     fn log(s: &mut St, t: usize, pc: usize, obs: i64) {
         s.logs[t].push((pc, obs));
         s.tasks[t].last = obs;
@@ -339,6 +363,87 @@ impl<'a> Explorer<'a> {
         s.tasks[t].pc += 1;
         s.tasks[t].micro = 0;
         self.settle(s, t);
+        if self.mode == Mode::Must {
+            // Ops that involve no Shuttle operation at all (payload accesses under a guard, ops that are
+            // skipped in the current local state, dropping a JoinHandle) cannot be separated from the
+            // preceding op by any scheduler: for the completeness direction they execute in the same step.
+            while s.panic.is_none() && self.silent_exec(s, t) {
+                self.settle(s, t);
+            }
+        }
+    }
+
+    /// Execute the next op of `t` if it is "silent" (no scheduling point in any implementation);
+    /// returns whether it did.
+    fn silent_exec(&self, s: &mut St, t: usize) -> bool {
+        let pc = s.tasks[t].pc as usize;
+        let Some(op) = self.prog.tasks[t].ops.get(pc) else { return false };
+        let ts = &s.tasks[t];
+        let is_async = self.is_async(t);
+        let obs: Option<i64> = match op {
+            Op::MGet(m) => Some(if ts.held_m & bit(*m) != 0 { s.mutexes[*m].payload } else { SKIP }),
+            Op::MSet(m, v) => Some(if ts.held_m & bit(*m) != 0 {
+                s.mutexes[*m].payload = *v;
+                0
+            } else {
+                SKIP
+            }),
+            Op::MAdd(m, d) => Some(if ts.held_m & bit(*m) != 0 {
+                let v = s.mutexes[*m].payload.wrapping_add(*d);
+                s.mutexes[*m].payload = v;
+                v
+            } else {
+                SKIP
+            }),
+            Op::RwGet(r) => Some(if ts.held_r[*r] != 0 { s.rws[*r].payload } else { SKIP }),
+            Op::RwSet(r, v) => Some(if ts.held_r[*r] == 2 {
+                s.rws[*r].payload = *v;
+                0
+            } else {
+                SKIP
+            }),
+            Op::Lock(m) | Op::TryLock(m) | Op::LockPanic(m) if ts.held_m & bit(*m) != 0 => Some(SKIP),
+            Op::Unlock(m) if ts.held_m & bit(*m) == 0 => Some(SKIP),
+            Op::Read(r) | Op::Write(r) | Op::TryRead(r) | Op::TryWrite(r) if ts.held_r[*r] != 0 => Some(SKIP),
+            Op::TryReadAgain(r) if ts.held_r[*r] != 1 => Some(SKIP),
+            Op::RwUnlock(r) if ts.held_r[*r] == 0 => Some(SKIP),
+            Op::CvWait(_, m) | Op::CvWaitWhile(_, m, _) if ts.held_m & bit(*m) == 0 => Some(SKIP),
+            Op::Send(c, _) | Op::TrySend(c, _) | Op::DropTx(c) if ts.tx & bit(*c) == 0 => Some(SKIP),
+            Op::Recv(c) | Op::TryRecv(c) | Op::DropRx(c) if ts.rx & bit(*c) == 0 => Some(SKIP),
+            Op::Spawn(c) if s.tasks[*c].status != Status::NotSpawned || *c == 0 => Some(SKIP),
+            Op::Join(c) if ts.handles & bit(*c) == 0 && ts.joining != Some(*c as u8) => Some(SKIP),
+            Op::Park if is_async => Some(SKIP),
+            Op::Abort(c) | Op::IsFinished(c) if ts.handles & bit(*c) == 0 || !self.is_async(*c) => Some(SKIP),
+            Op::DropHandle(c) => Some(if ts.handles & bit(*c) == 0 {
+                SKIP
+            } else {
+                s.tasks[t].handles &= !bit(*c);
+                if self.is_async(*c) {
+                    s.tasks[*c].detached = true;
+                }
+                0
+            }),
+            Op::AcqStart(..) if !is_async || ts.acq.is_some() => Some(SKIP),
+            // polling an acquisition that cannot complete on an *unfair* semaphore has no effect any other
+            // task can see (and no scheduling point: blocking on an unfair semaphore commutes)
+            Op::AcqStart(sm, k) if !s.sems[*sm].fair && !s.sems[*sm].closed && s.sems[*sm].avail < *k => {
+                s.tasks[t].acq = Some((*sm as u8, *k, AcqState::Pending));
+                s.tasks[t].acq_kept = true;
+                Some(5)
+            }
+            Op::AcqFinish | Op::AcqDrop if !(ts.acq.is_some() && ts.acq_kept) => Some(SKIP),
+            Op::EvWait(_) if !is_async => Some(SKIP),
+            _ => None,
+        };
+        match obs {
+            Some(o) => {
+                Self::log(s, t, pc, o);
+                s.tasks[t].pc += 1;
+                s.tasks[t].micro = 0;
+                true
+            }
+            None => false,
+        }
     }
 
     fn settle(&self, s: &mut St, t: usize) {
@@ -384,7 +489,7 @@ impl<'a> Explorer<'a> {
     /// Returns None if the task has no enabled real transition.
     fn step(&self, s: &St, t: usize) -> Vec<St> {
         let ts = &s.tasks[t];
-        if ts.status != Status::Ready {
+        if ts.status != Status::Ready || ts.frozen {
             return vec![];
         }
         let def = &self.prog.tasks[t];
@@ -875,7 +980,7 @@ impl<'a> Explorer<'a> {
                     ChanKind::Bounded(k) => {
                         if ch.buf.len() < k {
                             let mut outs = vec![];
-                            if self.mode == Mode::MayKnown && !blocking {
+                            if matches!(self.mode, Mode::MayKnown(f) if f & 1 != 0) && !blocking {
                                 // known finding c06.try-send-full-behind-woken-sender: try_send reports Full while
                                 // another sender is (or was) blocked in send() on this channel
                                 let other_sender_pending = (0..s.tasks.len()).any(|o| {
@@ -1123,6 +1228,7 @@ impl<'a> Explorer<'a> {
                     self.done(&mut n, t, 2);
                 } else if se.avail >= *k && (!se.fair || se.queue.is_empty()) {
                     n.sems[*sm].avail -= *k;
+                    self.freeze_after_acquire(&mut n, *sm, t);
                     self.done(&mut n, t, 1);
                 } else {
                     self.done(&mut n, t, 0);
@@ -1153,6 +1259,7 @@ impl<'a> Explorer<'a> {
                     self.done(&mut n, t, 0);
                 } else if se.avail >= *k && (!se.fair || se.queue.is_empty()) {
                     n.sems[*sm].avail -= *k;
+                    self.freeze_after_acquire(&mut n, *sm, t);
                     self.done(&mut n, t, 1);
                 } else {
                     if se.fair {
@@ -1248,6 +1355,7 @@ impl<'a> Explorer<'a> {
             }
             if se.avail >= k && (!se.fair || se.queue.is_empty()) {
                 n.sems[sm].avail -= k;
+                self.freeze_after_acquire(&mut n, sm, t);
                 self.done(&mut n, t, 1);
                 return vec![n];
             }
@@ -1293,6 +1401,7 @@ impl<'a> Explorer<'a> {
                     n.sems[sm].avail -= k;
                     n.tasks[t].acq = None;
                     n.tasks[t].acq_kept = false;
+                    self.freeze_after_acquire(&mut n, sm, t);
                     self.done(&mut n, t, 1);
                     return vec![n];
                 }
